@@ -487,6 +487,15 @@ func c16Forward(r *core.Run, e *core.FuncInfo) {
 				okArg = strings.HasPrefix(o, "param:") || strings.HasPrefix(o, "var:") || strings.HasSuffix(o, ".query")
 			case "[]database/sql/driver.NamedValue", "[]database/sql/driver.Value":
 				okArg = strings.HasPrefix(o, "param:") || strings.HasPrefix(o, "var:") || strings.Contains(o, "util.NamedValueToValue(") || strings.Contains(o, "util.ValueToNamedValue(") || strings.Contains(o, "builtin:append(") || strings.Contains(o, "builtin:make(")
+			case "database/sql/driver.TxOptions":
+				// the isolation level / read-only flag the application asked for: the method's own parameter, not a
+				// copy kept elsewhere (the transaction context is filled by the AT wrapper only)
+				okArg = false
+				for _, p := range paramObjs(e) {
+					if o == "param:"+p.Name() {
+						okArg = true
+					}
+				}
 			default:
 				continue
 			}
